@@ -229,10 +229,18 @@ RevertsOK(ls) ==
 AcctsOK(ls) ==
   /\ \A a \in Accounts(AllPs(ls.txs)) : HasAcct(ls, a)
   /\ \A x, y \in ls.accts : x.addr = y.addr => x = y
-  /\ \A x \in ls.accts : \A i \in DOMAIN ls.txs : x.addr \in Accounts(ls.txs[i].ps) => x.first <= ls.txs[i].ts
-  /\ \A x \in ls.accts :
-        \/ \E i \in DOMAIN ls.txs : x.addr \in Accounts(ls.txs[i].ps)
-        \/ \E i \in DOMAIN ls.logs : ls.logs[i].tgt = x.addr
+  /\ \A x \in ls.accts : \A i \in DOMAIN ls.txs :
+        ls.txs[i].reverts = 0 /\ x.addr \in Accounts(ls.txs[i].ps) => x.first <= ls.txs[i].ts
+  \* ("only if" direction -- an account exists only because a transaction involved it, carried account
+  \*  metadata for it, or a metadata write targeted it -- is a step property: see TraceLedger!P_C18_Accounts)
+
+\* C18, revert transactions: first usage is also the earliest timestamp among the REVERT transactions
+\* involving the account.  The code does not upsert accounts on revert (Revert above models that), so a
+\* revert dated before the account's first usage breaks this predicate: known finding
+\* C18/revert-before-first-usage.  Kept separate so that every other C18 predicate stays strict.
+RevertFirstUsageOK(ls) ==
+  \A x \in ls.accts : \A i \in DOMAIN ls.txs :
+     ls.txs[i].reverts # 0 /\ x.addr \in Accounts(ls.txs[i].ps) => x.first <= ls.txs[i].ts
 
 \* C08: the logs alone determine the transactions, revert marks and metadata
 \* (replay of the journal; volumes follow from the transactions by C02)
